@@ -415,7 +415,7 @@ pub fn run_check(prop: &str, tier: &str) -> i32 {
             }
         }
         "C13" => {
-            let s = pick(&["mem-core", "mem-bigkey", "mem-bigkey-limit", "mem-wide", "mem-limit", "mem-ttl", "ts-mem-limit", "disk-limit", "focus-v3", "focus-v3-ttl", "edge-v1", "disk-v2"], thorough);
+            let s = pick(&["disk-shrink-v3", "disk-shrink-v2", "mem-core", "mem-bigkey", "mem-bigkey-limit", "mem-wide", "mem-limit", "mem-ttl", "ts-mem-limit", "disk-limit", "focus-v3", "focus-v3-ttl", "edge-v1", "disk-v2"], thorough);
             seq_check(prop, tier, s, &["C13"], budget * 0.6, &mut report);
             // accounting right after recovery from every crash image
             let cs: Vec<Suite> = suites::crash_suites(thorough).into_iter().filter(|s| ["crash-core-v3", "crash-small-v3", "crash-ttl-v3"].contains(&s.name.as_str())).collect();
